@@ -22,7 +22,7 @@ const stringAxioms = `
 (assert (forall ((a Str) (b Str) (k Int)) (! (=> (and (<= (len a) k) (< k (+ (len a) (len b)))) (= (at (cat a b) k) (at b (- k (len a))))) :pattern ((at (cat a b) k)))))
 (assert (forall ((c Int)) (! (=> (and (<= 0 c) (< c 128)) (and (= (len (chr c)) 1) (= (at (chr c) 0) c))) :pattern ((chr c)))))
 (assert (forall ((c Int)) (! (=> (not (and (<= 0 c) (< c 128))) (and (>= (len (chr c)) 2) (<= (len (chr c)) 4) (>= (at (chr c) 0) 128))) :pattern ((chr c)))))
-(assert (forall ((h (Array Addr Int)) (b Slice)) (! (= (len (bytes2str h b)) (slen b)) :pattern ((bytes2str h b)))))
+(assert (forall ((h (Array Addr Int)) (b Slice)) (! (=> (>= (slen b) 0) (= (len (bytes2str h b)) (slen b))) :pattern ((bytes2str h b)))))
 (assert (forall ((h (Array Addr Int)) (b Slice) (k Int)) (! (=> (and (<= 0 k) (< k (slen b))) (= (at (bytes2str h b) k) (select h (selem b k)))) :pattern ((at (bytes2str h b) k)))))
 (assert (forall ((s Str)) (! (>= (len s) 0) :pattern ((len s)))))
 (assert (forall ((s Str) (k Int)) (! (and (<= 0 (at s k)) (<= (at s k) 255)) :pattern ((at s k)))))
@@ -349,6 +349,7 @@ type job struct {
 	uses  []string
 	query string
 	light string // same goal with only the quantifier-free, spec-function-free hypotheses
+	fixed string // a ready-made query (vacuity guard on the background theory)
 }
 
 // lightHyps keeps the quantifier-free hypotheses that mention no defined (possibly recursive) spec function;
@@ -385,6 +386,11 @@ func (w *World) discharge(jobs []*job, timeoutS, workers, nsolvers int, keepDir 
 	}
 	defer os.RemoveAll(dir)
 	for _, j := range jobs {
+		if j.fixed != "" {
+			j.query = j.fixed
+			j.o.Query = j.query
+			continue
+		}
 		j.query = w.buildQuery(j.o, j.g, j.uses)
 		j.o.Query = j.query
 		if !j.o.Cover && !strings.Contains(j.o.Goal, "spec_") && !strings.Contains(j.o.Goal, "(forall ") {
@@ -427,6 +433,9 @@ func (w *World) discharge(jobs []*job, timeoutS, workers, nsolvers int, keepDir 
 				t := timeoutS
 				if wk.js[0].o.Cover {
 					t = 3
+					if wk.js[0].fixed != "" {
+						t = 10
+					}
 				}
 				var r solveResult
 				if wk.light != "" {
@@ -478,9 +487,133 @@ func (w *World) discharge(jobs []*job, timeoutS, workers, nsolvers int, keepDir 
 	if keepDir != "" {
 		os.MkdirAll(keepDir, 0o755)
 		for _, j := range jobs {
-			if j.o.Status == "failed" || j.o.Status == "cover-vacuous" {
+			if j.o.Status == "failed" || j.o.Status == "cover-vacuous" || os.Getenv("GOVC_KEEPALL") != "" {
 				os.WriteFile(filepath.Join(keepDir, sanitize(j.o.Name)+".smt2"), []byte(j.query), 0o644)
+				if j.light != "" && os.Getenv("GOVC_KEEPALL") != "" {
+					os.WriteFile(filepath.Join(keepDir, sanitize(j.o.Name)+".light.smt2"), []byte(j.light), 0o644)
+				}
 			}
 		}
 	}
+}
+
+// buildAxiomQueries: vacuity guards on the background theory. Everything that is asserted without being a path
+// hypothesis - the string axioms, the axioms of uninterpreted spec functions, trusted `axiom` lemmas and trusted pure
+// contracts in quantified form - is checked for satisfiability, each group together with the string axioms and the
+// definitions it depends on (small queries, patterns stripped so that every axiom is looked at). An inconsistent
+// background theory would discharge every obligation.
+func (w *World) buildAxiomQueries(gens []*Gen) map[string]string {
+	out := map[string]string{}
+	mk := func(funcs, body string) string {
+		// spec functions mentioned (transitively)
+		included := map[string]bool{}
+		var add func(name string)
+		add = func(name string) {
+			if included[name] {
+				return
+			}
+			included[name] = true
+			_, deps := w.specDefinition(w.specs[name])
+			for _, d := range deps {
+				add(d)
+			}
+		}
+		toks := tokensOf(body)
+		for name := range w.specs {
+			if toks["spec_"+name] {
+				add(name)
+			}
+		}
+		var defs strings.Builder
+		for _, name := range w.specOrder {
+			if included[name] {
+				d, _ := w.specDefinition(w.specs[name])
+				defs.WriteString(d)
+			}
+		}
+		var sb strings.Builder
+		sb.WriteString("(set-logic ALL)\n")
+		sb.WriteString(basePrelude)
+		sb.WriteString(w.structDecls(nil))
+		all := tokensOf(body, defs.String())
+		sb.WriteString(w.strlitDecls(func(n string) bool { return all[n] }))
+		sb.WriteString(stringAxioms)
+		sb.WriteString(funcs)
+		sb.WriteString(defs.String())
+		sb.WriteString(body)
+		sb.WriteString("(check-sat)\n")
+		return stripPatterns(sb.String())
+	}
+	out["strings"] = mk("", "")
+	for _, name := range w.specOrder {
+		sf := w.specs[name]
+		if sf.Body == nil && len(sf.Axioms) > 0 {
+			d, _ := w.specDefinition(sf)
+			_ = d
+			out["spec_"+name] = mk("", "(assert (= (spec_"+name+placeholderArgs(w, sf)+") (spec_"+name+placeholderArgs(w, sf)+")))\n")
+		}
+	}
+	for n, lm := range w.lemmas {
+		if lm.Axiom {
+			out["axiom_"+n] = mk("", w.autoLemmaAxiom(lm))
+		}
+	}
+	for _, g := range gens {
+		for n, ax := range g.axioms {
+			if _, done := out["contract_"+n]; !done {
+				out["contract_"+n] = mk(g.funcs[n]+"\n", ax+"\n")
+			}
+		}
+	}
+	return out
+}
+
+// placeholderArgs: an application of the function to fresh-looking literal arguments is not needed; mentioning the
+// symbol through a nullary-safe trick would require declarations, so the definition itself (with its axioms) is
+// pulled in by naming the function in a tautology over declared constants of the right sorts.
+func placeholderArgs(w *World, sf *SpecFunc) string {
+	var sb strings.Builder
+	for _, p := range sf.Params {
+		t := w.resolveType(w.specPkg[sf.Name], p.Type)
+		sb.WriteString(" " + w.zero(t))
+	}
+	return sb.String()
+}
+
+// stripPatterns rewrites (! body :pattern (...)) to body.
+func stripPatterns(s string) string {
+	var sb strings.Builder
+	for i := 0; i < len(s); {
+		if strings.HasPrefix(s[i:], "(! ") {
+			// find the matching close and the top-level :pattern
+			d := 0
+			end := -1
+			pat := -1
+			for j := i; j < len(s); j++ {
+				switch s[j] {
+				case '(':
+					d++
+				case ')':
+					d--
+					if d == 0 {
+						end = j
+					}
+				}
+				if d == 1 && pat < 0 && strings.HasPrefix(s[j:], " :pattern ") {
+					pat = j
+				}
+				if end >= 0 {
+					break
+				}
+			}
+			if end > 0 && pat > 0 {
+				sb.WriteString(stripPatterns(s[i+3 : pat]))
+				i = end + 1
+				continue
+			}
+		}
+		sb.WriteByte(s[i])
+		i++
+	}
+	return sb.String()
 }
